@@ -60,3 +60,8 @@ CLAIMED["C20"] = dict(
     text="Decides per path: the documented number of hit/miss records per operation with hit <=> live entry; exactly one load success/failure per dispatch (also on the re-panic path) with the right classification; loaders dispatched only through wrapLoad; eviction recorded once with the victim's weight iff the removal happened. Does not decide the striped adder's exactness under contention.",
     note=TB,
     ref="DESIGN.md §4 C20, Appendix B3")
+CLAIMED["C12"] = dict(
+    technique="static analysis: " + PS + " (hook selection, saturating deadline terms, inheritance), writer census, sibling agreement over the 12 node variants, guard whitelist on deadline stores",
+    text="Decides per path: every stored deadline is satadd(clock sample of the operation, duration returned by the hook/API argument of that path); the hook is chosen by the pre-state (create for absent/expired, update/reload with the live old value, failure hook on failed reloads, read hook once per counted read) and an expired predecessor's value is never passed on; a replacing node inherits the predecessor's deadlines first; only the four known sites write deadlines and only the documented no-op tests may suppress a store; HasExpired (<=) and IsFresh (>) have the same boundary in all 12 variants; SaturatedAdd clamps. Does not decide numeric equality on concrete runs.",
+    note=TB + "Assumes calculators are pure w.r.t. the cache.",
+    ref="DESIGN.md §4 C12, Appendix B5")
